@@ -797,6 +797,10 @@ func NewBitwiseLeftShiftBigIntMemoryUsage(a, b *big.Int) MemoryUsage {
 			panic(invalidLeftShift)
 		}
 		shiftByteLength := int(shiftByteLengthBig.Int64())
+		// Prevent overflow of the result length (in words and in bytes)
+		if shiftByteLength > math.MaxInt/BigIntWordSize-aWordLength-5 {
+			panic(invalidLeftShift)
+		}
 		resultWordLength = aWordLength + shiftByteLength + 5
 	}
 	return NewBigIntMemoryUsage(
